@@ -50,7 +50,7 @@ def run(tier="quick", seed=0, use_cache=True):
     res.count("CONV-BEFORE-MUT", tot["conv_status_sites"])
     res.count("GROW-ROLLBACK", tot["grow_first_leaf_sites"])
     res.count("READ-ABSENCE", sum(r["exc"]["n"] for r in out.values()))
-    res.floor("functions cast into type-object slots (OO)", out["OO"]["slots"]["n"], 45)
+    res.floor("functions cast into type-object slots (OO)", out["OO"]["slots"]["n"], 35)
     res.count("SLOT-SIG", sum(r["slots"]["n"] for r in out.values()))
     res.count("SIZE-WIRING", sum(r["sizes"]["n"] for r in out.values()))
     convert.check_dtype_table(res, {f: r["dtype"] for f, r in out.items()})
